@@ -1,5 +1,6 @@
 import Dhcp.Driver.Hex
 import Dhcp.Driver.V4
+import Dhcp.Driver.V6
 import Dhcp.Server
 /-
   Line-protocol operations of the `Server` family (property C14).
@@ -10,11 +11,7 @@ import Dhcp.Server
   event (fields separated by `:`):
     e                          ReadFrom returns an error
     c                          the server is closed while ReadFrom waits (⇒ ReadFrom returns an error)
-    d:<hex>:<peer>             serve4: a datagram (`-` = empty read, n = 0) from <peer>
-    a:<hex>:<canon>:<peer>     serve6: a datagram the real dhcpv6.FromBytes ACCEPTS; <canon> = hex of
-                               the re-encoding of its decoding (computed by the harness when the line
-                               was generated, from the first 4096 bytes)
-    r:<hex>:<peer>             serve6: a datagram the real dhcpv6.FromBytes REJECTS
+    d:<hex>:<peer>             a datagram (`-` = empty read, n = 0) from <peer>
   peer:
     udp:<iphex|nil>:<port>:<zonehex>   a *net.UDPAddr
     udpnil                             an interface holding a nil *net.UDPAddr
@@ -23,16 +20,11 @@ import Dhcp.Server
 
   Output: `ok exit=<returned|blocked|panic> n=<k>` followed by ` | <idx> <peer> <message>` per
   handler invocation in loop order; <message> is the canonical packet of the `v4dec` op (serve4)
-  or <canon> (serve6).
-
-  TEMPORARY WEAKNESS (serve6): the Lean side has no DHCPv6 decoder model yet, so `dec6` is the
-  finite table `first 4096 bytes ↦ canon` carried by the op line itself.  The model therefore
-  decides which datagram is dispatched, in which order, with which peer and how the loop ends —
-  but the CONTENT of a DHCPv6 message is whatever the harness computed with the real decoder; it
-  is checked independently only by the implementation oracle `c14`.
+  or the canonical term of the `v6dec` op (serve6): both servers' message CONTENT is the model
+  decoder's (`dec4` / `dec6`) output on the first 4096 bytes of the datagram.
 -/
 namespace Dhcp.Driver
-open Dhcp Dhcp.Server
+open Dhcp Dhcp.Server Dhcp.V6
 
 def showPeer : Peer → String
   | .udp ip port zone => s!"udp:{hexOpt ip}:{port}:{hex zone}"
@@ -53,24 +45,14 @@ def parsePeer : List String → Option Peer
   | ["nil"] => some .nilAddr
   | _ => none
 
-/-- one event: the read result and, for serve6, the decoder-table entry it carries -/
-def parseEvent (tok : String) : Option (ReadResult × Option (Bytes × Bytes)) :=
+def parseEvent (tok : String) : Option ReadResult :=
   match tok.splitOn ":" with
-  | ["e"] => some (.readError, none)
-  | ["c"] => some (.readError, none)
+  | ["e"] => some .readError
+  | ["c"] => some .readError
   | "d" :: h :: peer => do
     let b ← unhex h
     let p ← parsePeer peer
-    pure (.datagram b p, none)
-  | "a" :: h :: canon :: peer => do
-    let b ← unhex h
-    let c ← unhex canon
-    let p ← parsePeer peer
-    pure (.datagram b p, some (b.take readBufLen, c))
-  | "r" :: h :: peer => do
-    let b ← unhex h
-    let p ← parsePeer peer
-    pure (.datagram b p, none)
+    pure (.datagram b p)
   | _ => none
 
 def showExit : Exit → String
@@ -82,21 +64,16 @@ def showOutcome {α} (sh : α → String) (o : Outcome α) : String :=
   s!"ok exit={showExit o.exit} n={o.invocations.length}" ++
     String.join (o.invocations.map (fun v => s!" | {v.idx} {showPeer v.peer} {sh v.msg}"))
 
-/-- the DHCPv6 decoder stand-in: a finite table from the op line -/
-def tableDec (tbl : List (Bytes × Bytes)) (b : Bytes) : Option Bytes :=
-  (tbl.find? (fun e => e.1 == b)).map (·.2)
-
 def stepServer (op : String) (args0 : List String) : Option String :=
   -- `w=<k>` (how long the harness's handlers block) is not part of the model's input
   let args := args0.filter (fun a => !a.startsWith "w=")
   match op with
   | "serve4" => do
     let evs ← args.mapM parseEvent
-    pure (showOutcome showPkt4 (serve4 (evs.map (·.1))))
+    pure (showOutcome showPkt4 (serve4 evs))
   | "serve6" => do
     let evs ← args.mapM parseEvent
-    let tbl := evs.filterMap (·.2)
-    pure (showOutcome hex (serve6 (tableDec tbl) (evs.map (·.1))))
+    pure (showOutcome (fun m => (sxMsg m).show) (serve6dec evs))
   | _ => none
 
 end Dhcp.Driver
